@@ -154,6 +154,95 @@ def run_first(job):
         shutil.rmtree(top, ignore_errors=True)
 
 
+# scripts that change directory before they ask for a dependency: (directory of x and x.do, argument of the script's `cd`,
+# how the script then spells the root-level target y)
+CD_CASES = [
+    ("", ".", "y"), ("", "d", "../y"), ("", "d/e", "../../y"), ("", "ld", "../y"), ("", "ld/e", "../../y"), ("", "d", "{P}/y"),
+    ("", "d", "..//y"), ("d", ".", "../y"), ("d", "..", "y"), ("d", "..", "./y"), ("d", "e", "../../y"), ("d", "../ld/e", "../../y"),
+    ("d", "e", "{P}/ld/../y"),
+]
+
+
+def run_cd(job):
+    """x.do changes directory and then asks for y under some spelling; y needs z (checksummed, reads zin) and ysrc.  Build,
+    edit one input, `redo x` again: the request made from the other directory must reach the one and only y -- through the
+    direct path (ysrc edited: y is dirty) and through the out-of-band path (zin edited: y itself is up to date, its
+    checksummed dependency is uncertain, the names travel through redo-unlocked)."""
+    root, bindir, xdir, cdarg, ysp, edited, idx = job
+    import sqlite3
+    top = os.path.join(root, "c%d" % idx)
+    P = os.path.join(top, "p")
+    res = {"case": [xdir, cdarg, ysp, edited], "violations": []}
+    try:
+        os.makedirs(P + "/d/e")
+        os.makedirs(top + "/home")
+        os.makedirs(P + "/.redo")
+        os.symlink("d", P + "/ld")
+        Pr = os.path.realpath(P)
+        for n, v in (("zin", "1"), ("ysrc", "1")):
+            with open(os.path.join(P, n), "w") as fh:
+                fh.write(v + "\n")
+        tr = 'echo "B $1 $REDO_RUNID" >> "$RV_TRACE"\n'
+        with open(P + "/z.do", "w") as fh:
+            fh.write(tr + 'redo-ifchange zin\nprintf "z(%s)\\n" "$(cat zin)" > "$3"\nredo-stamp < "$3"\n')
+        with open(P + "/y.do", "w") as fh:
+            fh.write(tr + 'redo-ifchange z ysrc\nprintf "y(%s%s)\\n" "$(cat z)" "$(cat ysrc)"\n')
+        up = "../" if xdir else ""
+        with open(os.path.join(P, xdir, "x.do"), "w") as fh:
+            fh.write(tr + 'here=$PWD\ncd "%s" || exit 3\nredo-ifchange "%s" || exit 4\ncd "$here"\nprintf "x(%%s)\\n" "$(cat %sy)"\n'
+                     % (cdarg, ysp.replace("{P}", Pr), up))
+        trace = top + "/trace"
+        open(trace, "w").close()
+        env = common.base_env(bindir, top + "/home")
+        env["REDO_LOG"] = "0"
+        env["RV_TRACE"] = trace
+        xt = os.path.join(xdir, "x") if xdir else "x"
+
+        def viol(kind, **kw):
+            res["violations"].append(dict(kind=kind, **kw))
+        rc, out, err = common.run_cmd(["redo", "--no-log", xt], P, env, timeout=60)
+        if rc != 0:
+            viol("cd-script-first-build-failed", rc=rc, stderr=err[-400:])
+            return res
+        n0 = sum(1 for l in open(trace))
+        st = os.stat(os.path.join(P, edited))
+        with open(os.path.join(P, edited), "w") as fh:
+            fh.write("22\n")
+        os.utime(os.path.join(P, edited), (st.st_mtime + 5, st.st_mtime + 5))
+        rc, out, err = common.run_cmd(["redo", "--no-log", xt], P, env, timeout=60)
+        if rc == -999:
+            viol("cd-script-hang")
+            return res
+        if rc != 0:
+            viol("cd-script-rebuild-failed", rc=rc, stderr=err[-400:])
+        ran = sorted(l.split(" ")[1] for l in list(open(trace))[n0:] if l.startswith("B "))
+        want_ran = sorted(["x", "y", "z"] if edited == "zin" else ["x", "y"])
+        if ran != want_ran:
+            viol("cd-script-ran-%s" % ",".join(ran), want=want_ran, stderr=err[-300:])
+        vals = {"zin": "1", "ysrc": "1"}
+        vals[edited] = "22"
+        want = "x(y(z(%s)%s))\n" % (vals["zin"], vals["ysrc"])
+        try:
+            got = open(os.path.join(P, xt)).read()
+        except OSError:
+            got = None
+        if rc == 0 and got != want:
+            viol("cd-script-stale-content", got=got, want=want)
+        con = sqlite3.connect(os.path.join(P, ".redo", "db.sqlite3"))
+        names = [r[0] for r in con.execute("select name from Files")]
+        con.close()
+        stray = sorted(nm for nm in names if os.path.basename(nm) in ("y", "z", "zin", "ysrc", "y.do", "z.do") and "/" in nm)
+        if stray:
+            viol("cd-script-records-under-other-names", names=stray)
+        extra_files = sorted(os.path.relpath(os.path.join(dp, f), P) for dp, dn, fn in os.walk(P) if ".redo" not in dp
+                             for f in fn if f in ("y", "z") and dp != P)
+        if extra_files:
+            viol("cd-script-built-other-files", files=extra_files)
+        return res
+    finally:
+        shutil.rmtree(top, ignore_errors=True)
+
+
 def extra_checks(tier, verdict, cov):
     """End-to-end: every ordered pair of spellings of one file on one command line, from several working directories,
     with redo-ifchange, redo and redo -j2: exit 0, the script ran once, exactly one Files row (hence one lock) names it."""
@@ -192,6 +281,16 @@ def extra_checks(tier, verdict, cov):
                 sig = {"kind": v["kind"], "first_cwd": r["case"][0], "first_spelling": r["case"][1]}
                 verdict.report(sig, {"engine": "E1-e2e", "check": "first-commands", "case": r["case"], "violation": v})
                 bad.append((r, v))
+    cjobs = [(root, bindir, xd, cdarg, ysp, ed, i) for i, (xd, cdarg, ysp, ed) in
+             enumerate((xd, cdarg, ysp, ed) for (xd, cdarg, ysp) in CD_CASES for ed in ("zin", "ysrc"))]
+    with concurrent.futures.ProcessPoolExecutor(max_workers=min(16, max(1, common.NCPU))) as ex:
+        for r in ex.map(run_cd, cjobs):
+            for v in r["violations"]:
+                sig = {"kind": v["kind"], "edited": r["case"][3], "control": r["case"][1] == "."}
+                verdict.report(sig, {"engine": "E1-e2e", "check": "cd-scripts", "case": r["case"], "violation": v})
+                bad.append((r, v))
+    cov["scripts_that_change_directory"] = {"cases": CD_CASES, "edits": ["zin (out-of-band path)", "ysrc (direct path)"]}
+    cov["evaluations"] += len(cjobs)
     cov["first_commands"] = {"cases": FIRST_CMDS}
     cov["evaluations"] += len(fjobs)
     cov["end_to_end"] = {"command_lines": len(jobs), "cases": [(t, c, len(sp)) for t, c, sp in e2e_cases(tier)], "modes": modes,
